@@ -1856,6 +1856,21 @@ def classify_bool_expr(d):
             'std::result::Result::is_err': 'res_is_err',
             'std::result::Result::is_ok': 'res_is_ok',
         }
+        if name in ('std::cmp::PartialEq::eq', 'std::cmp::PartialEq::ne') and len(d[3]) == 2:
+            # `self.state == FutureState::Done` / `!= ..` written out instead of the `is_done()` / `is_waiting()` helpers
+            def _fs_variant(x):
+                if x[0] in ('ref', 'rawptr') and len(x) > 2 and x[2] is not None:
+                    x = x[2]
+                if x[0] == 'agg' and canon(x[1]) == 'future::FutureState' and not x[3]:
+                    return x[2]
+                return None
+
+            def _is_state_place(x):
+                return x[0] in ('ref', 'rawptr') and x[1][0] == 'pfield' and x[1][2] == 'state'
+            for x, y in ((d[3][0], d[3][1]), (d[3][1], d[3][0])):
+                v = _fs_variant(y)
+                if v in ('Done', 'Waiting') and _is_state_place(x):
+                    return ('fs_done' if v == 'Done' else 'fs_waiting', name.endswith('::eq'))
         if name in tbl:
             lab = tbl[name]
             if lab == 'cmp_gt' or lab == 'cmp_lt' or lab == 'cmp_ge' or lab == 'cmp_le':
